@@ -8,10 +8,40 @@ import obj_lib
 from obj_lib import *
 
 PROPS = "Props/C09"
+KIND = {"1b": "tl1_valid", "1r": "tl1_valid", "2": "tl2", "j": "json"}
 
 
 def hx(b):
     return b.hex() if b else "-"
+
+
+def tail_default(ins, tid, v, depth=0):
+    """the value with every struct's fields from index 7 on (2nd and later TL2 presence blocks) replaced by defaults;
+    only plain fields (no mask, no nat arguments) are touched.  Returns (value, changed)"""
+    x = ins[tid]
+    if depth > 6 or v is None:
+        return v, False
+    if x["kind"] == "struct" and v[0] == "S":
+        fs, ch = list(v[1]), False
+        for i, f in enumerate(x["fields"]):
+            if i >= len(fs) or fs[i] is None or f.get("mask") is not None or (f.get("natArgs") or []):
+                continue
+            if i >= 7:
+                d = obj_lib.default_value(ins, f["type"])
+                if d is not None and d != fs[i]:
+                    fs[i], ch = d, True
+            else:
+                fs[i], c = tail_default(ins, f["type"], fs[i], depth + 1)
+                ch = ch or c
+        return ("S", fs), ch
+    if x["kind"] == "array" and v[0] == "A" and not (x["elem"].get("natArgs") or []):
+        es, ch = [], False
+        for e in v[1]:
+            e2, c = tail_default(ins, x["elem"]["type"], e, depth + 1)
+            es.append(e2)
+            ch = ch or c
+        return ("A", es), ch
+    return v, False
 
 
 def run_lines_e(exe, args, lines, **kw):
@@ -23,7 +53,7 @@ def run_lines_e(exe, args, lines, **kw):
 
 def run(ctx):
     quick = ctx.quick()
-    st = family_setup(ctx, PROPS, n_random=6 if quick else 40, tl2_random=False)
+    st = family_setup(ctx, PROPS, n_random=5 if quick else 40, tl2_random=False, objx_random=2 if quick else 12)
     nhist = 6 if quick else 80
     stats = {"schemas": 0, "types": 0, "histories": 0, "steps": 0, "steps_tl1_valid": 0, "steps_tl1_mutated": 0, "steps_tl2": 0, "steps_json": 0,
              "steps_truncated_tl2_json": 0, "steps_reset": 0, "steps_after_failed_decode": 0, "kernel_rejected": 0, "model_compared_steps": 0,
@@ -67,15 +97,21 @@ def run(ctx):
                         continue
                     enc_lines.append(f"enc 0 {tid} {name} {boxed} | {vtext(v)}")
                     enc_meta.append((tid, boxed))
+                tv, changed = tail_default(u.ins, tid, v)
+                if changed:      # same value with defaults from the 8th field of every struct on (later TL2 presence blocks empty)
+                    enc_lines.append(f"enc 0 {tid} {name} 1 | {vtext(tv)}")
+                    enc_meta.append((tid, "tail"))
         rc, enc_out, err = run_lines_e(st.ref, margs, enc_lines)
         if rc != 0 or len(enc_out) != len(enc_lines):
             with lock:
                 unit_errors.append((u.name, f"model driver failed (enc): rc={rc} {err[-300:]}"))
             return
-        pool = {tid: {1: [], 0: []} for tid, _, _ in tops}
+        pool = {tid: {1: [], 0: [], "tail": []} for tid, _, _ in tops}
         for (tid, boxed), o in zip(enc_meta, enc_out):
             if o.startswith("ok "):
                 pool[tid][boxed].append(o[3:])
+                if boxed == "tail":
+                    pool[tid][1].append(o[3:])
         rl = [f"ofill {name} {rng.getrandbits(40)}" for tid, name, x in tops for _ in range(3)]
         rout = run_lines_resilient(u.gen.exe, [], rl, timeout=300, max_restarts=40)
         tid_of = {name: tid for tid, name, x in tops}
@@ -91,6 +127,18 @@ def run(ctx):
                 continue
             s_["types"] += 1
             rfuel = rank[tid] + 1 if rank[tid] > 0 else 8
+            # wide structs: alternate "all fields set" with "only the first presence block set", in every pair of formats
+            if pool[tid]["tail"]:
+                fm = ["1b", "j"] + (["2"] if has_tl2(name) else [])
+                for fa in fm:
+                    for fb in fm:
+                        full, tail = rng.choice(pool[tid][1]), rng.choice(pool[tid]["tail"])
+                        steps = [f"{fa}:{full}", f"{fb}:{tail}", f"{fa}:{rng.choice(pool[tid][1])}", "R", f"{fb}:{rng.choice(pool[tid]['tail'])}"]
+                        ks = [KIND[fa], KIND[fb], KIND[fa], "reset", KIND[fb]]
+                        gl.append(f"ohist {name} " + " ".join(steps))
+                        ml.append(f"hist {tid} {san} {rfuel} " + " ".join(steps))
+                        kinds.append(ks)
+                        s_["histories_wide_alternating"] = s_.get("histories_wide_alternating", 0) + 1
             for _ in range(nhist):
                 steps, ks = [], []
                 failed_before = False
